@@ -46,35 +46,39 @@ Definition emb (b : builder) : Builder_st :=
 Definition lift {A} (b : builder) (r : res builder) (v : A) : Builder_st * res A :=
   match r with Ok b' => (emb b', Ok v) | Err e => (emb b, Err e) end.
 
-(* case analysis on every comparison and every if / match on a bool that is left, then arithmetic *)
-Ltac split_cmp :=
-  repeat match goal with
-         | |- context [Z.eqb ?a ?b] => destruct (Z.eqb a b) eqn:?
-         | |- context [Z.leb ?a ?b] => destruct (Z.leb a b) eqn:?
-         | |- context [Z.ltb ?a ?b] => destruct (Z.ltb a b) eqn:?
-         | |- context [Z.geb ?a ?b] => destruct (Z.geb a b) eqn:?
-         | |- context [Z.gtb ?a ?b] => destruct (Z.gtb a b) eqn:?
-         end;
-  cbn [negb andb orb bind bind_st check fst snd];
+(* reduce the control skeleton: monadic binds, checks, the classification of arguments *)
+Ltac red_ctl := cbn [negb andb orb bind bind_st bind_call check fst snd is_int is_none int_of posint nonneg zof pyoff
+                     str_is_none str_is_str str_truthy atom_truthy is_register obj_id elem_width is_some
+                     rawstr_of regarg_of valid_str atom_of part_of_str part_of_int].
+
+(* case analysis on every `if` that is left (conditions that mention bound variables are skipped by `context`), then
+   booleans and arithmetic by lia *)
+Ltac split_ifs :=
+  repeat (match goal with
+          | |- context [if ?c then _ else _] => destruct c eqn:?
+          end; red_ctl);
   try reflexivity; try congruence; try (exfalso; lia).
 
 Ltac proj := unfold emb; cbn [Builder_addr_width Builder_data_width Builder_granularity Builder_registers Builder_scope_stack
-                  Builder_frozen emb gen_Builder_addr_width gen_Builder_data_width gen_Builder_granularity
+                  Builder_frozen gen_Builder_addr_width gen_Builder_data_width gen_Builder_granularity
                   bd_aw bd_dw bd_gran bd_regs bd_stack bd_frozen set_regs set_stack bfreeze].
+
+(* put back what the case analysis learnt about atoms that reappear after unfolding *)
+Ltac use_eqs :=
+  repeat match goal with
+         | H : ?x = true |- context [?x] => rewrite H
+         | H : ?x = false |- context [?x] => rewrite H
+         end.
+
+Ltac arith_eq := repeat (reflexivity || lia || f_equal).
 
 (* ------------------------------------------------------------------ __init__, properties, freeze *)
 
 Theorem tie_builder_init : forall aw dw g,
   gen_Builder_init aw dw g = match new_builder aw dw g with Ok b => Ok (emb b) | Err e => Err e end.
 Proof.
-  intros aw dw g. unfold gen_Builder_init, new_builder.
-  destruct aw as [a| |]; cbn [is_int int_of negb bind posint zof check]; try reflexivity.
-  destruct (a <=? 0) eqn:Ha; destruct (0 <? a) eqn:Ha'; try (exfalso; lia); cbn [check bind]; [reflexivity|].
-  destruct dw as [d| |]; cbn [is_int int_of negb bind posint zof check]; try reflexivity.
-  destruct (d <=? 0) eqn:Hd; destruct (0 <? d) eqn:Hd'; try (exfalso; lia); cbn [check bind]; [reflexivity|].
-  destruct g as [n| |]; cbn [is_int int_of negb bind posint zof check]; try reflexivity.
-  destruct (n <=? 0) eqn:Hn; destruct (0 <? n) eqn:Hn'; try (exfalso; lia); cbn [check bind]; [reflexivity|].
-  split_cmp.
+  intros aw dw g. unfold gen_Builder_init, new_builder, check.
+  destruct aw as [a| |], dw as [d| |], g as [n| |]; red_ctl; split_ifs.
 Qed.
 Print Assumptions tie_builder_init.
 
@@ -98,30 +102,20 @@ Print Assumptions tie_builder_freeze.
 Lemma has_reg_emb b id : od_has (map emb_reg (bd_regs b)) id = has_reg b id.
 Proof. apply od_has_emb. Qed.
 
+(* an accepted add: the dict gets one more item, the represented register *)
+Ltac finish_add :=
+  proj; use_eqs;
+  rewrite od_set_fresh by (rewrite od_has_emb; assumption);
+  rewrite !map_app; cbn [map]; unfold emb_reg; cbn [b_id b_width b_name b_off pyoff];
+  rewrite ?map_app; cbn [map raw_of_part]; arith_eq.
+
 Theorem tie_builder_add_full : forall b nm r off,
   gen_Builder_add (emb b) nm r off = lift b (badd b (rawstr_of nm) (regarg_of r) off) r.
 Proof.
-  intros b nm r off. unfold gen_Builder_add, badd, lift.
-  destruct r as [id w|id]; cbn [is_register regarg_of negb obj_id]; [|reflexivity].
-  proj. destruct (bd_frozen b) eqn:Hf; cbn [negb check bind]; [reflexivity|].
-  destruct nm as [a| |]; cbn [str_is_none str_is_str str_truthy rawstr_of valid_str atom_of negb bind bind_st check];
-    try reflexivity.
-  destruct (a =? 0) eqn:Ha; cbn [negb check bind bind_st]; [reflexivity|].
-  rewrite has_reg_emb.
-  assert (Hset : forall o, has_reg b id = false ->
-            od_set (map emb_reg (bd_regs b)) id (OReg id w, map raw_of_part (bd_stack b) ++ [RStr a], pyoff o) =
-            map emb_reg (bd_regs b ++ [{| b_id := id; b_width := w; b_name := bd_stack b ++ [PStr a]; b_off := o |}])).
-  { intros o Hh. pose proof (od_set_emb (bd_regs b) {| b_id := id; b_width := w; b_name := bd_stack b ++ [PStr a]; b_off := o |}) as H.
-    cbn [b_id emb_reg snd b_width b_name b_off] in H. rewrite map_app in H. cbn [map raw_of_part] in H.
-    apply H. exact Hh. }
-  destruct off as [z| |]; cbn [is_none is_int int_of nonneg zof negb bind bind_st check].
-  - rewrite Z.geb_leb. destruct (0 <=? z) eqn:Hz; cbn [negb check bind bind_st]; [|reflexivity].
-    destruct (z mod (bd_dw b / bd_gran b) =? 0) eqn:Hm; cbn [negb check bind]; [|reflexivity].
-    destruct (has_reg b id) eqn:Hh; cbn [negb check bind]; [reflexivity|].
-    pose proof (Hset (Some z) eq_refl) as Hs. cbn [pyoff] in Hs. rewrite Hs. unfold emb. proj. rewrite ?Hf. reflexivity.
-  - destruct (has_reg b id) eqn:Hh; cbn [negb check bind]; [reflexivity|].
-    pose proof (Hset None eq_refl) as Hs. cbn [pyoff] in Hs. rewrite Hs. unfold emb. proj. rewrite ?Hf. reflexivity.
-  - reflexivity.
+  intros b nm r off. unfold gen_Builder_add, badd, lift, check.
+  destruct r as [id w|id]; red_ctl; [|reflexivity].
+  proj. rewrite ?has_reg_emb.
+  destruct nm as [a| |], off as [z| |]; red_ctl; split_ifs; finish_add.
 Qed.
 Print Assumptions tie_builder_add_full.
 
@@ -153,11 +147,8 @@ Theorem tie_cluster_enter : forall b nm,
   | Err e => (emb b, Err e)
   end.
 Proof.
-  intros b nm. unfold gen_Builder_Cluster_enter, enter_scope.
-  destruct nm as [a| |]; cbn [str_is_str str_truthy rawstr_of valid_str atom_of negb bind bind_st check];
-    try reflexivity.
-  destruct (a =? 0) eqn:Ha; cbn [negb check bind bind_st]; [reflexivity|].
-  proj. rewrite map_app. reflexivity.
+  intros b nm. unfold gen_Builder_Cluster_enter, enter_scope, check.
+  destruct nm as [a| |]; red_ctl; split_ifs; proj; rewrite ?map_app; reflexivity.
 Qed.
 Print Assumptions tie_cluster_enter.
 
@@ -168,27 +159,18 @@ Theorem tie_index_enter : forall b idx,
   | Err e => (emb b, Err e)
   end.
 Proof.
-  intros b idx. unfold gen_Builder_Index_enter, enter_scope.
-  destruct idx as [z| |]; cbn [is_int int_of nonneg zof negb bind bind_st check]; try reflexivity.
-  rewrite Z.geb_leb. destruct (0 <=? z) eqn:Hz; cbn [negb check bind bind_st]; [|reflexivity].
-  proj. rewrite map_app. reflexivity.
+  intros b idx. unfold gen_Builder_Index_enter, enter_scope, check.
+  destruct idx as [z| |]; red_ctl; split_ifs; proj; rewrite ?map_app; reflexivity.
 Qed.
 Print Assumptions tie_index_enter.
 
-(* the part the model's enter_scope returns is the one scope_part names *)
-Lemma exit_common b p (x : rawpart) : x = raw_of_part p ->
-  forall (k : Builder_st -> rawpart -> Builder_st * res unit),
-  (forall s y, k s y = bind_st s (rawpart_eq y x)
-                         (fun eq => if eq then (s, Ok tt) else (s, Err AssertionError))) ->
-  bind_st (emb b) (py_pop (Builder_scope_stack (emb b))) (fun '(y, rest) =>
-     k (mk_Builder (bd_aw b) (bd_dw b) (bd_gran b) (map emb_reg (bd_regs b)) rest (bd_frozen b)) y) =
-  let '(b', r) := exit_scope b p in (emb b', r).
-Proof.
-  intros -> k Hk. proj. rewrite (py_pop_emb (bd_stack b) p). unfold exit_scope.
-  destruct (bd_stack b) as [|y l] eqn:Hs; cbn [bind_st]; [unfold emb; rewrite Hs; reflexivity|].
-  rewrite Hk, rawpart_eq_emb. cbn [bind_st]. unfold emb. proj.
-  destruct (part_eqb (last (y :: l) p) p); reflexivity.
-Qed.
+(* the finally clause on a represented stack, the block having been entered with the part p (whose raw form is x) *)
+Ltac exit_tac b p x :=
+  proj; rewrite (py_pop_emb (bd_stack b) p); unfold exit_scope;
+  let Hs := fresh "Hs" in
+  destruct (bd_stack b) as [|? ?] eqn:Hs; red_ctl; [proj; rewrite ?Hs; reflexivity|];
+  change x with (raw_of_part p); rewrite ?rawpart_eq_emb, ?rawpart_eq_emb_sym; red_ctl;
+  split_ifs; proj; rewrite ?Hs; reflexivity.
 
 Theorem tie_cluster_exit : forall b nm p, scope_part (KCluster (rawstr_of nm)) = Some p ->
   gen_Builder_Cluster_exit (emb b) nm = let '(b', r) := exit_scope b p in (emb b', r).
@@ -196,11 +178,7 @@ Proof.
   intros b nm p Hp. cbn [scope_part] in Hp.
   destruct nm as [a| |]; cbn [rawstr_of valid_str] in Hp; try discriminate.
   destruct (negb (a =? 0)); [|discriminate]. injection Hp as <-. cbn [atom_of].
-  unfold gen_Builder_Cluster_exit. proj.
-  apply (exit_common b (PStr a) (part_of_str (YStr a)) eq_refl
-           (fun s y => bind_st s (rawpart_eq y (part_of_str (YStr a)))
-                         (fun eq => if eq then (s, Ok tt) else (s, Err AssertionError)))).
-  reflexivity.
+  unfold gen_Builder_Cluster_exit. red_ctl. exit_tac b (PStr a) (RStr a).
 Qed.
 Print Assumptions tie_cluster_exit.
 
@@ -210,11 +188,7 @@ Proof.
   intros b idx p Hp. cbn [scope_part] in Hp.
   destruct idx as [z| |]; cbn [nonneg] in Hp; try discriminate.
   destruct (0 <=? z); [|discriminate]. injection Hp as <-. cbn [zof].
-  unfold gen_Builder_Index_exit. proj.
-  apply (exit_common b (PInt z) (part_of_int (VInt z)) eq_refl
-           (fun s y => bind_st s (rawpart_eq y (part_of_int (VInt z)))
-                         (fun eq => if eq then (s, Ok tt) else (s, Err AssertionError)))).
-  reflexivity.
+  unfold gen_Builder_Index_exit. red_ctl. exit_tac b (PInt z) (RInt z).
 Qed.
 Print Assumptions tie_index_exit.
 
@@ -264,8 +238,9 @@ Lemma cluster_enter_cases s nm :
                          (Builder_scope_stack s ++ [x]) (Builder_frozen s), Ok tt)).
 Proof.
   unfold gen_Builder_Cluster_enter.
-  destruct nm as [a| |]; cbn [str_is_str str_truthy negb bind bind_st]; try (left; eexists; reflexivity).
-  destruct (a =? 0); cbn [negb]; [left; eexists; reflexivity|right; eexists; reflexivity].
+  destruct nm as [a| |]; red_ctl;
+    repeat (match goal with |- context [if ?c then _ else _] => destruct c end; red_ctl);
+    first [left; eexists; reflexivity | right; eexists; reflexivity].
 Qed.
 
 Lemma index_enter_cases s idx :
@@ -275,8 +250,9 @@ Lemma index_enter_cases s idx :
                          (Builder_scope_stack s ++ [x]) (Builder_frozen s), Ok tt)).
 Proof.
   unfold gen_Builder_Index_enter.
-  destruct idx as [z| |]; cbn [is_int int_of negb bind bind_st]; try (left; eexists; reflexivity).
-  destruct (z >=? 0); cbn [negb]; [right; eexists; reflexivity|left; eexists; reflexivity].
+  destruct idx as [z| |]; red_ctl;
+    repeat (match goal with |- context [if ?c then _ else _] => destruct c end; red_ctl);
+    first [left; eexists; reflexivity | right; eexists; reflexivity].
 Qed.
 
 Theorem tie_with_restores_stack : forall (A : Type) (s : Builder_st) (body : Builder_st -> Builder_st * res A),
@@ -328,8 +304,12 @@ Proof.
   destruct (new_map (VInt (bd_aw b)) (VInt (bd_dw b)) (VInt 0)) as [m0|e] eqn:Hn; cbn [bind_st bind]; [|reflexivity].
   erewrite (for_each_add_regs (bfreeze b)).
   - destruct (add_regs (bfreeze b) m0 (bd_regs b)) as [m'|e]; reflexivity.
-  - intros r m. unfold emb_reg, reg_addr, reg_size. cbn [snd model_add_resource elem_width bind].
-    proj. destruct (b_off r) as [o|]; cbn [pyoff is_none negb int_of bind];
+  - intros r m. unfold emb_reg, reg_addr, reg_size. cbn [snd]. unfold model_add_resource. red_ctl. proj.
+    destruct (b_off r) as [o|]; red_ctl;
+      try match goal with
+          | |- bind (add_resource _ _ _ _ ?s1 ?a1 ?l1) _ = match add_resource _ _ _ _ ?s2 ?a2 ?l2 with _ => _ end =>
+              replace s1 with s2 by arith_eq; replace a1 with a2 by arith_eq; replace l1 with l2 by arith_eq
+          end;
       match goal with |- context [add_resource ?a ?b ?c ?d ?e ?f ?g] =>
         destruct (add_resource a b c d e f g) as [[m' se]|e'] end; reflexivity.
 Qed.
